@@ -49,7 +49,7 @@ Proof.
   - intros p i nx r Hnx [Hr _]. rewrite all_clip_eq. apply closed_app; auto. destruct nx; [apply Hnx|apply closed_nil].
   - intros p i nx r Hnx [Hr _]. rewrite all_mask_eq. apply closed_app; auto. destruct nx; [apply Hnx|apply closed_nil].
   - intros p i ps Hps. rewrite all_filter_eq. apply closed_flat_map. exact Hps.
-  - intros k r ins img Hi. rewrite all_prim_eq. destruct img; [apply Hi|apply closed_nil].
+  - intros k sb r ins img Hi. rewrite all_prim_eq. destruct img; [apply Hi|apply closed_nil].
   - apply closed_nil.
   - apply closed_nil.
   - intros; apply closed_nil.
@@ -150,7 +150,7 @@ Section Universe.
     intros Hg Hf Hp Hi Hk. apply (U_gdefs g Hg). destruct g as [i sy cl m fs ks]. rewrite all_gdefs_eq. simpl in Hf.
     apply in_or_app. right. apply in_or_app. right. apply in_flat_map. exists f. split; auto.
     destruct f as [fp fi ps]. rewrite all_filter_eq. simpl in Hp. apply in_flat_map. exists pr. split; auto.
-    destruct pr as [kd rs ins img]. simpl in Hi. subst img. rewrite all_prim_eq. apply kid_in_all_group. exact Hk.
+    destruct pr as [kd sb rs ins img]. simpl in Hi. subst img. rewrite all_prim_eq. apply kid_in_all_group. exact Hk.
   Qed.
   Lemma U_pattern_kid i fl st q j r k :
     In (NPath i fl st) U -> (fl = PPat q j r \/ st = PPat q j r) -> In k (g_kids r) -> In k U.
